@@ -1140,6 +1140,7 @@ class Guards:
         self.atom_origin = {}
         self.atom_edge = {}
         self._loops = None
+        self._loop_by_header = {}
         self._in_progress = set()
         self._back = self.cfg.back_edges()
 
@@ -1384,9 +1385,18 @@ class Guards:
                         if p2 not in body:
                             body.add(p2)
                             st.append(p2)
-                ls.append(body)
-            self._loops = ls
+                ls.append((h, body))
+            # natural loops with the same header are one loop
+            merged = {}
+            for h, body in ls:
+                merged.setdefault(h, set()).update(body)
+            self._loops = list(merged.values())
+            self._loop_by_header = merged
         return self._loops
+
+    def loop_by_header(self):
+        self.loops()
+        return self._loop_by_header
 
     def atom_stable_at(self, a, b):
         import re
